@@ -390,7 +390,12 @@ class Project(MessageHandler):
         for task in self.tasks:
             if not task.leaf():
                 continue
-            deps = task.get("depends", scIdx) or []
+            # Own dependencies and those of every enclosing container
+            task_scenario = task.data[scIdx] if task.data else None
+            if task_scenario is not None:
+                deps = task_scenario.getAllDependencies()
+            else:
+                deps = task.get("depends", scIdx) or []
             for dep in deps:
                 if isinstance(dep, dict):
                     pred = dep.get("task")
@@ -408,8 +413,12 @@ class Project(MessageHandler):
                         # derives END from predecessor's START, so this task is NOT terminal
                         has_onstart_dep.add(task.fullId if hasattr(task, "fullId") else None)
                     else:
-                        # Normal finish-to-start: predecessor has a successor
+                        # Normal finish-to-start: predecessor has a successor; a container that is
+                        # depended on passes that on to every leaf below it
                         has_fs_successor.add(pred.fullId)
+                        if not pred.leaf():
+                            for leaf in pred.allLeaves():
+                                has_fs_successor.add(leaf.fullId)
 
         def propagate_end_to_children(task: Any, container_end: Optional[Any]) -> None:
             """Recursively propagate end constraint down the task tree."""
